@@ -5,7 +5,7 @@ written against.  A difference never fails a check; it makes the quick tier expl
 """
 import glob, hashlib, json, os, re, sys
 
-REPO = "/repo"
+REPO = os.environ.get("VERIF_REPO", "/repo")
 HERE = os.path.dirname(os.path.abspath(__file__))
 BASE = os.path.join(HERE, "srcmap_baseline.json")
 
